@@ -258,13 +258,239 @@ class C05(Prop):
         return repr(float(v))
 
     def generate(self, rng, tier):
+        import random
+
         case = self.generate_main(rng, tier)
         # everything below draws AFTER the main case, so the main stream is what it was
         if case["spectra"] and rng.random() < 0.7:
             case["reads"] = self.gen_reads(rng, case)
+        offd = False
         if rng.random() < 0.08:
+            before = json.dumps(case, sort_keys=True)
             self.off_domain(rng, case)
+            offd = json.dumps(case, sort_keys=True) != before
+        # the classes of the extension round have their own stream
+        self.extend(random.Random(rng.getrandbits(64)), case, offd)
         return case
+
+    # ------------------------------------------------------------------ classes of the extension round
+    DOM_ANY = [2.0 ** 54, 2.0 ** 57, 2.0 ** 60, 2.0 ** 70, 1e17, 1e19, 1e25, 1e30]   # float32 and float64 values
+    DOM_F8 = [2.0 ** 200, 1e100, 1e200, 1e300]                                     # float64 only
+
+    @staticmethod
+    def exact_windows(masses, width):
+        out = []
+        for m in masses:
+            h = F(m) * F(width["value"]) / 10 ** 6 / 2 if width["kind"] == "ppm" else F(width["value"]) / 2
+            out.append((F(m) - h, F(m) + h))
+        return out
+
+    def extend(self, rng, case, offd):
+        sp = case["spectra"]
+        exact = case["kind"] == "exact"
+        grid = 2 ** 14
+        dyadic = exact and all((F(v) * grid).denominator == 1 for v in case["masses"]) \
+            and (case["width"]["kind"] == "ppm" or (F(case["width"]["value"]) * grid).denominator == 1) \
+            and all((F(m) * grid).denominator == 1 for s in sp for m in s["mz"])
+        changed = False
+        # 1. every length rescaled by a power of two (exact): small and large masses, ppm widths at both ends
+        if dyadic and rng.random() < 0.15:
+            k = 2.0 ** rng.choice([-6, -4, -2, 3, 6, 8])
+            case["masses"] = [m * k for m in case["masses"]]
+            if case["width"]["kind"] == "mz":
+                case["width"] = {"kind": "mz", "value": case["width"]["value"] * k}
+            for s in sp:
+                s["mz"] = [m * k for m in s["mz"]]
+            if case["binw"] is not None:
+                case["binw"] = case["binw"] * k
+            changed = True
+        # 2. pixel coverage: first / last pixel missing, a single recorded pixel, long images
+        if sp and not offd:
+            r = rng.random()
+            X = case["size"][0] if case["size"] is not None else max(s["x"] for s in sp)
+            Y = case["size"][1] if case["size"] is not None else max(s["y"] for s in sp)
+            if r < 0.04 and len(sp) > 1:
+                sp[:] = [s for s in sp if (s["x"], s["y"]) != (1, 1)] or sp[:1]
+                changed = True
+            elif r < 0.08 and len(sp) > 1:
+                sp[:] = [s for s in sp if (s["x"], s["y"]) != (X, Y)] or sp[:1]
+                changed = True
+            elif r < 0.11 and len(sp) > 1:
+                sp[:] = [rng.choice(sp)]
+                changed = True
+            elif r < 0.15:
+                # 1xN, Nx1 and larger grids: the spectra of the case repeated over more positions
+                X, Y = rng.choice([(rng.randint(5, 40), 1), (1, rng.randint(5, 40)), (rng.randint(5, 7), rng.randint(2, 6)),
+                                   (rng.randint(2, 6), rng.randint(5, 7))])
+                cells = [(x, y) for y in range(1, Y + 1) for x in range(1, X + 1)]
+                keep = rng.choice([1.0, 0.8, 0.5])
+                pos = [p for p in cells if rng.random() < keep] or [rng.choice(cells)]
+                rng.shuffle(pos)
+                old = [dict(s) for s in sp]
+                sp[:] = [{**rng.choice(old), "x": x, "y": y} for (x, y) in pos]
+                for s in sp:
+                    s["mz"], s["it"] = list(s["mz"]), list(s["it"])
+                if case["size"] is not None:
+                    case["size"] = [X, Y]
+                changed = True
+        # 3. peaks that dominate the content of the windows by more than the precision of float64 (and so of float32),
+        # below, above and between the windows; the windows keep small exactly summable contents, so their sums stay
+        # compared with tolerance 0.  The full sums of such spectra are rounding-determined: the TIC is mostly stored
+        # (an absent one gets the rounding tolerance in `evaluate`), binning is not requested.
+        if dyadic and sp and not case["shared"] and case["binw"] is None and rng.random() < 0.35:
+            wins = self.exact_windows(case["masses"], case["width"])
+            lo_all, hi_all = min(w[0] for w in wins), max(w[1] for w in wins)
+            for s in sp:
+                if rng.random() < 0.25:
+                    continue
+                cur = {F(m) for m in s["mz"]}
+                top = max([hi_all] + list(cur))
+                bot = min([lo_all] + list(cur))
+                for _ in range(rng.choice([1, 1, 2])):
+                    where = rng.choice(["below", "below", "above", "between", "on-upper-edge"])
+                    if where == "below":
+                        q = bot - F(rng.randint(1, 64), 4) if rng.random() < 0.5 else lo_all - F(rng.randint(1, 64), 64)
+                    elif where == "above":
+                        q = top + F(rng.randint(1, 64), 4) if rng.random() < 0.5 else hi_all + F(rng.randint(0, 64), 64)
+                    elif where == "on-upper-edge" and case["width"]["kind"] == "mz":
+                        q = rng.choice(wins)[1]   # the upper edge is outside the half-open window
+                    else:
+                        q = lo_all + (hi_all - lo_all) * F(rng.randint(0, 256), 256)
+                    if q <= 0 or q in cur or any(a <= q < b for a, b in wins) or (q * grid * 64).denominator != 1:
+                        continue
+                    big = rng.choice(self.DOM_ANY + (self.DOM_F8 if case["itdt"] == "f8" else []))
+                    mz = sorted(cur | {q})
+                    i = mz.index(q)
+                    s["mz"] = [float(m) for m in mz]
+                    s["it"] = s["it"][:i] + [big] + s["it"][i:]
+                    cur.add(q)
+                    if rng.random() < 0.7:
+                        s["tic"] = rng.choice(["0", "7.25", "1536.0", "1e+17"])
+                    changed = True
+        # 4. stored / absent TIC along the file, in every order
+        if len(sp) >= 2 and rng.random() < 0.3:
+            n = len(sp)
+            pat = rng.choice(["SA", "AS", "alt-S", "alt-A", "last-A", "first-A", "first-S", "random"])
+            if pat == "SA":
+                k = rng.randint(1, n - 1)
+                pres = [i < k for i in range(n)]
+            elif pat == "AS":
+                k = rng.randint(1, n - 1)
+                pres = [i >= k for i in range(n)]
+            elif pat in ("alt-S", "alt-A"):
+                pres = [(i % 2 == 0) == (pat == "alt-S") for i in range(n)]
+            elif pat == "last-A":
+                pres = [i < n - 1 for i in range(n)]
+            elif pat == "first-A":
+                pres = [i > 0 for i in range(n)]
+            elif pat == "first-S":
+                pres = [i == 0 for i in range(n)]
+            else:
+                pres = [rng.random() < 0.5 for _ in range(n)]
+            for s, p in zip(sp, pres):
+                if not p:
+                    s["tic"] = None
+                elif s["tic"] is None:
+                    v = rng.choice([0.0, 7.25, 1536.0, float(rng.randint(1, 10 ** 6)), sum(s["it"]) + 0.5])
+                    s["tic"] = rng.choice(["%.6f", "%.6e", "%r", "%g"]) % v
+        if changed and case.get("reads"):
+            case["reads"] = self.gen_reads(rng, case) if case["spectra"] else []
+        # 5. argument types of the main extraction
+        case["targ"] = self.pick_targ(rng, case["masses"], case["width"], scalar=case["scalar"])
+        # 6. history on the one object: further extractions (other targets / widths / types), load(), repeats; order
+        if rng.random() < 0.55:
+            case["extra"] = [self.gen_extra(rng, case) for _ in range(rng.choice([1, 1, 2]))]
+        if rng.random() < 0.4:
+            case["order"] = rng.randint(0, 10 ** 6)
+
+    def pick_targ(self, rng, masses, width, scalar=None):
+        integral = all(float(m).is_integer() and 0 < abs(m) < 2 ** 31 for m in masses)
+        if scalar is None:
+            scalar = len(masses) == 1 and rng.random() < 0.5
+        if scalar and len(masses) == 1:
+            pool = ["pyfloat", "pyfloat", "np-f8", "0d-f8", "np-f4"]
+            ipool = ["pyint", "pyint", "np-i8"]
+        else:
+            pool = ["list", "list", "f8", "f8", "tuple", "f8-strided", "f4"]
+            ipool = ["list-int", "list-int", "i8", "i4", "tuple-int", "list-mixed"]
+        mt = rng.choice(ipool) if integral and rng.random() < 0.7 else rng.choice(pool)
+        w = width["value"]
+        wint = float(w).is_integer() and 0 < w < 2 ** 31
+        r = rng.random()
+        wt = ("int" if wint else "float") if r < 0.5 else "np-f8" if r < 0.6 else "np-f4" if r < 0.65 else "float"
+        if mt == "i4" and wt == "int" and width["kind"] == "ppm" and max(abs(m) for m in masses) * w >= 2 ** 31:
+            wt = "float"   # int32 * int: NumPy wraps around (noted in notes/EC05.md; a 25 % window at m/z > 8000)
+        return {"mt": mt, "wt": wt}
+
+    def gen_extra(self, rng, case):
+        sp = case["spectra"]
+        exact = case["kind"] == "exact"
+        peaks = sorted({m for s in sp for m in s["mz"]})
+        r = rng.random()
+        if r < 0.1:
+            return {"op": "again"}
+        if r < 0.16:
+            return {"op": rng.choice(["tic", "range"])}
+
+        def width_for(masses):
+            if exact:
+                if rng.random() < 0.6:
+                    return {"kind": "mz", "value": rng.choice([0.0, 0.03125, 0.125, 0.5, 1.0, 1.0, 2.0, 4.0, 64.0])}
+                return {"kind": "ppm", "value": rng.choice([15625.0, 62500.0, 250000.0, 1e6 / 2 ** rng.randint(2, 9)])}
+            if rng.random() < 0.5:
+                return {"kind": "mz", "value": rng.choice([0.1, 0.33, 1.0, 1.7, 40.0])}
+            return {"kind": "ppm", "value": rng.choice([10.0, 25.0, 5000.0, 1e5])}
+
+        k = rng.random()
+        base = case["masses"]
+        if k < 0.3 and peaks:
+            # nominal (integer) masses next to recorded peaks, mostly with integer-typed arguments
+            cand = sorted({float(round(p)) for p in peaks if round(p) >= 1})
+            masses = rng.sample(cand, min(len(cand), rng.randint(1, 4))) if cand else list(base)
+            width = width_for(masses)
+            if width["kind"] == "mz" and rng.random() < 0.7:
+                width["value"] = rng.choice([1.0, 1.0, 2.0, 0.5, 3.0])
+        elif k < 0.45 and peaks:
+            # targets ON recorded peaks
+            masses = rng.sample(peaks, min(len(peaks), rng.randint(1, 4)))
+            width = width_for(masses)
+        elif k < 0.65 and peaks:
+            # adjacent windows [e - w, e), [e, e + w), ... with a recorded peak exactly on a shared edge e
+            width = {"kind": "mz", "value": rng.choice([0.125, 0.5, 1.0, 2.0, 8.0]) if exact else rng.choice([0.5, 1.0, 1.7])}
+            w, e = width["value"], rng.choice(peaks)
+            n, j = rng.randint(2, 6), rng.randint(0, 4)
+            masses = [e - w / 2 + (i - j) * w for i in range(n)]
+            masses = [m for m in masses if m > 0] or [e + w / 2]
+            if rng.random() < 0.4:
+                rng.shuffle(masses)
+        elif k < 0.73:
+            # hundreds of targets: unsorted, with duplicates, windows overlapping
+            lo, hi = (min(peaks), max(peaks)) if peaks else (96.0, 160.0)
+            n = rng.randint(100, 400)
+            step = max((hi - lo), 1.0) / 64
+            masses = [lo + rng.randint(-8, 72) * step for _ in range(n)]
+            masses = [m for m in masses if m > 0] or [lo]
+            width = width_for(masses)
+            if width["kind"] == "mz":
+                width["value"] = rng.choice([step, 2 * step, step / 2])
+        elif k < 0.83:
+            # the targets of the main extraction repeated and reversed: duplicates
+            masses = list(base) + list(reversed(base))
+            width = width_for(masses)
+        elif k < 0.9 and peaks:
+            # one window that holds every recorded peak
+            lo, hi = min(peaks), max(peaks)
+            masses = [(lo + hi) / 2]
+            width = {"kind": "mz", "value": 2 * (hi - lo) + rng.choice([2.0, 0.25])}
+        else:
+            masses = list(base)
+            width = width_for(masses)
+        if rng.random() < 0.12:
+            x = {"op": "load", "how": rng.choice(["path", "object"]), "masses": masses,
+                 "ppm": rng.choice([None, 15625.0, 62500.0, 250000.0] if exact else [None, 10.0, 5000.0])}
+            x["targ"] = self.pick_targ(rng, masses, {"kind": "ppm", "value": x["ppm"] or 10.0})
+            return x
+        return {"op": "extract", "masses": masses, "width": width, "targ": self.pick_targ(rng, masses, width)}
 
     DTYPES = ["u1", "u2", "u4", "u8", "f4", "f8"]
 
@@ -571,6 +797,49 @@ class C05(Prop):
                    "masses": [m], "width": width}
         # no spectrum at all
         yield {**base, "size": [2, 1], "spectra": [], "masses": [101.0], "width": {"kind": "mz", "value": 1.0}}
+        # ---- extension round
+        # peaks that dominate the windows' contents by more than 2^53 (2^24): below, between and above the windows
+        w2 = {"kind": "mz", "value": 2.0}
+        for itdt in ("f8", "f4"):
+            yield {**base, "itdt": itdt, "spectra": [{**sp, "mz": [50.0, 100.0, 101.0], "it": [1e17, 1.0, 2.0], "tic": "3"}],
+                   "masses": [100.5], "width": w2}
+            yield {**base, "itdt": itdt, "mzdt": "f4", "size": [2, 1],
+                   "spectra": [{**sp, "mz": [50.0, 100.0, 150.0, 200.0, 250.0], "it": [1e17, 1.0, 2.0 ** 60, 2.0, 1e30], "tic": None},
+                               {**sp, "x": 2, "mz": [100.0, 101.0, 102.0], "it": [6.0, 2.0 ** 70, 10.0], "tic": "16"}],
+                   "masses": [200.0, 100.0, 102.0], "width": w2}
+        yield {**base, "itdt": "f8", "spectra": [{**sp, "mz": [99.0, 100.0, 300.0], "it": [1e300, 5.0, 1e200], "tic": None}],
+               "masses": [100.0, 99.0], "width": w2}
+        # stored and absent TIC along the file, both orders and alternating (both parsers read every file)
+        four = [{**sp, "x": x, "y": y, "it": [float(k), 2.0, 4.0, 8.0]} for k, (x, y) in enumerate([(1, 1), (2, 1), (1, 2), (2, 2)])]
+        for tics in (["12.5", None, None, None], [None, "12.5", "1e+03", "7"], ["1", None, "2.5", None], [None, "3", None, "4.000000e+00"],
+                     ["1", "2", "3", None]):
+            yield {**base, "size": [2, 2], "spectra": [{**t, "tic": v} for t, v in zip(four, tics)], "masses": [100.0], "width": w2}
+        # integer-typed targets / widths (nominal masses), every way of writing them
+        for mt, wt, wv in (("list-int", "float", 1.0), ("pyint", "float", 1.0), ("i4", "int", 2), ("i8", "float", 1.0),
+                           ("tuple-int", "int", 3), ("np-i8", "np-f8", 1.0), ("list-mixed", "float", 1.0), ("f4", "np-f4", 1.0),
+                           ("f8-strided", "int", 1), ("0d-f8", "float", 1.0), ("np-f4", "float", 0.5), ("tuple", "np-f8", 1.0)):
+            ms = [300.0] if mt in SCALAR_MT else [300.0, 100.0, 401.0]
+            yield {**base, "spectra": [sp], "masses": ms, "scalar": mt in SCALAR_MT, "width": {"kind": "mz", "value": wv},
+                   "targ": {"mt": mt, "wt": wt}}
+            yield {**base, "spectra": [sp], "masses": ms, "scalar": mt in SCALAR_MT, "width": {"kind": "ppm", "value": 15625.0},
+                   "targ": {"mt": mt, "wt": "int" if wt == "int" else wt}}
+        # adjacent half-open windows: a peak on the shared edge belongs to the upper window only
+        tri = {**sp, "mz": [99.0, 100.0, 101.0, 101.5], "it": [1.0, 2.0, 4.0, 8.0]}
+        yield {**base, "spectra": [tri], "masses": [99.5, 100.5, 101.5, 98.5], "width": {"kind": "mz", "value": 1.0}}
+        # hundreds of targets, unsorted with duplicates
+        yield {**base, "spectra": [tri, {**tri, "x": 2, "it": [16.0, 32.0, 64.0, 128.0]}], "size": [2, 1],
+               "masses": [98.0 + ((7 * k) % 64) / 8 for k in range(256)], "width": {"kind": "mz", "value": 0.25}}
+        # histories on one object: two extractions with other targets / widths / types, load(), a repeated call, reordered
+        hist = [{"op": "extract", "masses": [100.0, 101.0], "width": {"kind": "mz", "value": 1.0}, "targ": {"mt": "list-int", "wt": "int"}},
+                {"op": "again"}, {"op": "load", "how": "object", "masses": [100.0], "ppm": None, "targ": {"mt": "pyfloat", "wt": "float"}},
+                {"op": "load", "how": "path", "masses": [100.0, 101.5], "ppm": 15625.0, "targ": {"mt": "f8", "wt": "float"}},
+                {"op": "tic"}, {"op": "range"}]
+        for order in (None, 1, 2, 3):
+            yield {**base, "spectra": [tri, {**tri, "x": 2, "tic": "7.5"}], "size": [2, 1], "masses": [99.5], "binw": 0.5,
+                   "width": {"kind": "ppm", "value": 15625.0}, "extra": hist, "order": order}
+        # 1xN and Nx1 images with the first / last pixel missing, a single recorded pixel
+        for size, pos in (([7, 1], [(2, 1), (7, 1), (4, 1)]), ([1, 9], [(1, 1), (1, 8)]), ([5, 6], [(3, 4)]), (None, [(1, 12), (1, 3)])):
+            yield {**base, "size": size, "spectra": [{**tri, "x": x, "y": y} for (x, y) in pos], "masses": [100.0], "width": w2}
         # ---- outside the quantifier, implementation vs model only: positions as NumPy subscripts, the dict of spectra
         w1 = {"masses": [100.0, 250.0], "width": {"kind": "mz", "value": 2.0}}
         a, b, c = ({**sp, "it": [float(k), 2.0, 4.0, 8.0], "tic": None} for k in (1, 16, 32))
@@ -1225,6 +1494,23 @@ class C05(Prop):
     # ------------------------------------------------------------------ shrinking
     def shrink(self, case):
         sp = case["spectra"]
+        ex = case.get("extra") or []
+        for i in range(len(ex)):
+            yield {**case, "extra": ex[:i] + ex[i + 1:]}
+        if case.get("order") is not None:
+            yield {**case, "order": None}
+        for i, x in enumerate(ex):
+            ms = x.get("masses") or []
+            if len(ms) > 1:
+                yield {**case, "extra": ex[:i] + [{**x, "masses": ms[:len(ms) // 2]}] + ex[i + 1:]}
+                yield {**case, "extra": ex[:i] + [{**x, "masses": ms[len(ms) // 2:]}] + ex[i + 1:]}
+                if len(ms) <= 8:
+                    for j in range(len(ms)):
+                        yield {**case, "extra": ex[:i] + [{**x, "masses": ms[:j] + ms[j + 1:]}] + ex[i + 1:]}
+            if x.get("targ"):
+                yield {**case, "extra": ex[:i] + [{**x, "targ": None}] + ex[i + 1:]}
+        if case.get("targ"):
+            yield {**case, "targ": None}
         for i in range(len(sp)):
             if len(sp) > 1:
                 yield {**case, "spectra": sp[:i] + sp[i + 1:], "shared": False}
